@@ -293,7 +293,7 @@ class C31(Prop):
                    "the printed formats (hugin/xdsl/uai08/dot) are not parsed back: the PGM object and to_factor() are read"]
     families = {"quick": [("FDUP", 4), ("F2.3", 48), ("F1.2q", 48), ("F3.2", 64), ("F1.3s", 16), ("F2.2", 8), ("F3.1", 8),
                           ("F1.1", 4), ("F1.1dup", 2), ("F2.1", 2)],
-                "thorough": [("FDUP", 4), ("F3.3", 384), ("F2.4", 256), ("F2.3", 48), ("F1.2q", 48), ("F3.2", 64),
+                "thorough": [("FDUP", 4), ("F3.3/4", 128), ("F2.4", 256), ("F2.3", 48), ("F1.2q", 48), ("F3.2", 64),
                              ("F1.3s", 16), ("F2.2", 8), ("F3.1", 8), ("F1.1", 4), ("F1.1dup", 2), ("F2.1", 2)]}
     budget = {"quick": 450, "thorough": 2400}
 
